@@ -19,13 +19,26 @@ def run(ctx):
         'R3 the boundary set merges all four sources, rounded and uniqued; '
         'core length is its last element',
         'R4 the requirement is the floored minimum; the user value replaces '
-        'it only when not larger; the cap only lowers it']
+        'it only when not larger; the cap only lowers it',
+        'R5 premise shared with C04.R1-R3: the per-cell step criteria that '
+        'are aggregated into the requirement are the reciprocals of the '
+        'coefficient sums of the update operators, so that the steps the '
+        'mesh builder produces do not exceed what the march needs']
     ctx.not_decided += ['round-off behaviour of nearly coincident bounds',
                         'numerical value of the stability requirement (C04)']
     r1(ctx)
     r2(ctx)
     r3(ctx)
     r4(ctx)
+    # premise of "no step exceeds the stability requirement": the
+    # requirement is the one the update operators need (C04.R1-R3)
+    from . import c04
+    sub = ctx.alias({'C04.R1': 'C05.R5', 'C04.R2': 'C05.R5',
+                     'C04.R3': 'C05.R5'})
+    c04.r1(sub)
+    c04.r2(sub)
+    c04.r3(sub)
+    ctx.min_instances('C05.R5', 45)
     ctx.min_instances('C05.R1', 5)
     ctx.min_instances('C05.R2', 4)
     ctx.min_instances('C05.R3', 6)
